@@ -13,6 +13,8 @@ import Verif.Model.EAB
   * `bind_once_conc_refuted` — the all-interleavings statement is FALSE as coded (D11): schedule
                                validate₁ validate₂ create₁ create₂ update₁ update₂
   * `bind_once_conc_partial` — it holds for schedules in which requests do not overlap
+  * `bind_once_conc_serial`  — … for any number of requests run one after the other in any order
+  * `policy_limits_orders`   — the policy attached to a key limits every order of the account bound to it
   * `overlap_always_double`  — (table, `decide`) for the witness pair every one of the 18 overlapping
                                schedules creates two accounts; the 2 serial ones create one
 -/
@@ -514,5 +516,218 @@ theorem bind_once_conc_partial_rev (st : State) (r0 r1 : Req) (k : Nat) (hk0 : k
 /-- the partial theorem is not vacuous: the serial schedule on the D11 pair gives exactly one account -/
 example : countVia 7 (threadResps (runSched exState [⟨exReq, .start⟩, ⟨exReq2, .start⟩]
     (List.replicate 3 0 ++ List.replicate 3 1)).2) = 1 := by decide
+
+/-! ### … and for any number of requests that do not overlap -/
+
+theorem getElem?_setAt_self {α : Type} (l : List α) (i : Nat) (a b : α) (h : l[i]? = some a) :
+    (setAt l i b)[i]? = some b := by
+  induction l generalizing i with
+  | nil => simp at h
+  | cons x xs ih =>
+    cases i with
+    | zero => simp [setAt]
+    | succ i => simp at h; simp [setAt]; exact ih i h
+
+theorem getElem?_setAt_ne {α : Type} (l : List α) (i j : Nat) (b : α) (h : j ≠ i) :
+    (setAt l i b)[j]? = l[j]? := by
+  induction l generalizing i j with
+  | nil => simp [setAt]
+  | cons x xs ih =>
+    cases i with
+    | zero =>
+      cases j with
+      | zero => exact absurd rfl h
+      | succ j => simp [setAt]
+    | succ i =>
+      cases j with
+      | zero => simp [setAt]
+      | succ j => simp [setAt]; exact ih i j (by omega)
+
+theorem setAt_setAt {α : Type} (l : List α) (i : Nat) (a b : α) : setAt (setAt l i a) i b = setAt l i b := by
+  induction l generalizing i with
+  | nil => simp [setAt]
+  | cons x xs ih =>
+    cases i with
+    | zero => simp [setAt]
+    | succ i => simp [setAt]; exact ih i
+
+theorem runSched_move (st : State) (ts : List Thread) (i : Nat) (t : Thread) (rest : List Nat)
+    (h : ts[i]? = some t) :
+    runSched st ts (i :: rest) = runSched (step st t).1 (setAt ts i (step st t).2) rest := by
+  simp [runSched, h]
+
+/-- a request that takes its three steps back to back, whatever the other requests are doing -/
+theorem runSched_block (st : State) (ts : List Thread) (i : Nat) (r : Req) (rest : List Nat)
+    (h : ts[i]? = some ⟨r, .start⟩) :
+    runSched st ts (i :: i :: i :: rest) =
+      runSched (handle st r).1 (setAt ts i ⟨r, .done (handle st r).2⟩) rest := by
+  have h3 := stepN_three st r
+  simp only [stepN] at h3
+  rw [runSched_move st ts i _ _ h]
+  rw [runSched_move _ _ i _ _ (getElem?_setAt_self ts i _ _ h), setAt_setAt]
+  rw [runSched_move _ _ i _ _ (getElem?_setAt_self ts i _ _ h), setAt_setAt]
+  have e1 := congrArg Prod.fst h3
+  have e2 := congrArg Prod.snd h3
+  simp only [] at e1 e2
+  rw [e1, e2]
+
+/-- what one thread contributes to `countVia k` -/
+def cv (k : Nat) (t : Thread) : Nat :=
+  match t.pc with
+  | .done (.created _ v) => if v = k then 1 else 0
+  | _ => 0
+
+theorem countVia_cons (k : Nat) (t : Thread) (ts : List Thread) :
+    countVia k (threadResps (t :: ts)) = cv k t + countVia k (threadResps ts) := by
+  obtain ⟨r, pc⟩ := t
+  cases pc with
+  | done x => cases x <;> simp [threadResps, Thread.resp, cv, countVia]
+  | start => simp [threadResps, List.filterMap_cons, Thread.resp, cv]
+  | validated _ => simp [threadResps, List.filterMap_cons, Thread.resp, cv]
+  | created _ _ => simp [threadResps, List.filterMap_cons, Thread.resp, cv]
+
+theorem countVia_setAt (k : Nat) (ts : List Thread) (i : Nat) (t t' : Thread) (h : ts[i]? = some t) :
+    countVia k (threadResps (setAt ts i t')) + cv k t = countVia k (threadResps ts) + cv k t' := by
+  induction ts generalizing i with
+  | nil => simp at h
+  | cons x xs ih =>
+    cases i with
+    | zero => simp at h; subst h; simp only [setAt, countVia_cons]; omega
+    | succ i =>
+      simp at h
+      have := ih i h
+      simp only [setAt, countVia_cons]; omega
+
+/-- the schedule in which the requests listed in `order` run one after the other, each to completion -/
+def serialSched (order : List Nat) : List Nat := order.flatMap fun i => [i, i, i]
+
+theorem serial_aux (k : Nat) (hk0 : k ≠ 0) (order : List Nat) (st : State) (ts : List Thread)
+    (hnd : order.Nodup) (hstart : ∀ i ∈ order, ∃ r, ts[i]? = some ⟨r, .start⟩) :
+    countVia k (threadResps (runSched st ts (serialSched order)).2) ≤ countVia k (threadResps ts) + 1 ∧
+    (Bound st k → countVia k (threadResps (runSched st ts (serialSched order)).2) = countVia k (threadResps ts)) := by
+  induction order generalizing st ts with
+  | nil => simp [serialSched, runSched]
+  | cons i rest ih =>
+    obtain ⟨r, hi⟩ := hstart i List.mem_cons_self
+    have hsched : serialSched (i :: rest) = i :: i :: i :: serialSched rest := by
+      simp [serialSched, List.flatMap_cons]
+    rw [hsched, runSched_block st ts i r _ hi]
+    have hnd' : rest.Nodup := (List.nodup_cons.mp hnd).2
+    have hni : i ∉ rest := (List.nodup_cons.mp hnd).1
+    cases hh : handle st r with
+    | mk s1 x =>
+      simp only []
+      have hstart' : ∀ j ∈ rest, ∃ r', (setAt ts i ⟨r, .done x⟩)[j]? = some ⟨r', .start⟩ := by
+        intro j hj
+        obtain ⟨r', hr'⟩ := hstart j (List.mem_cons_of_mem _ hj)
+        exact ⟨r', by rw [getElem?_setAt_ne _ _ _ _ (fun e : j = i => hni (e ▸ hj))]; exact hr'⟩
+      have ⟨i1, i2⟩ := ih s1 (setAt ts i ⟨r, .done x⟩) hnd' hstart'
+      have hc := countVia_setAt k ts i ⟨r, .start⟩ ⟨r, .done x⟩ hi
+      have hcv0 : cv k (⟨r, .start⟩ : Thread) = 0 := rfl
+      by_cases hx : ∃ acc, x = .created acc k
+      · obtain ⟨acc, hx⟩ := hx
+        subst hx
+        have hsp : Spent s1 k := ⟨acc, created_spends_key hh hk0⟩
+        have h0 := i2 hsp.bound
+        have hcv1 : cv k (⟨r, .done (.created acc k)⟩ : Thread) = 1 := by simp [cv]
+        refine ⟨by omega, fun hb => ?_⟩
+        exact absurd (congrArg Prod.snd hh) (bound_key_refused hk0 hb r acc)
+      · have hcv1 : cv k (⟨r, .done x⟩ : Thread) = 0 := by
+          cases x with
+          | created a v =>
+            have : v ≠ k := fun hv => hx ⟨a, by rw [hv]⟩
+            simp [cv, this]
+          | err e => simp [cv]
+          | existing a => simp [cv]
+        have hkeep : getKey s1 k = getKey st k := by
+          rcases handle_getKey hh k with he | ⟨acc, hxx, _⟩
+          · exact he
+          · exact absurd ⟨acc, hxx⟩ hx
+        refine ⟨by omega, fun hb => ?_⟩
+        obtain ⟨key, hb1, hb2⟩ := hb
+        have := i2 ⟨key, by rw [hkeep]; exact hb1, hb2⟩
+        omega
+
+/-- **bind_once_conc_serial.** Any number of new-account requests, any subset of them run one after
+    the other in any order, each taking its three steps without another request moving in between:
+    a binding key creates at most one account. -/
+theorem bind_once_conc_serial (k : Nat) (hk0 : k ≠ 0) (st : State) (reqs : List Req) (order : List Nat)
+    (hnd : order.Nodup) (hlt : ∀ i ∈ order, i < reqs.length) :
+    countVia k (threadResps (runSched st (reqs.map (⟨·, .start⟩)) (serialSched order)).2) ≤ 1 := by
+  have h0 : ∀ l : List Req, countVia k (threadResps (l.map (⟨·, .start⟩))) = 0 := by
+    intro l
+    induction l with
+    | nil => rfl
+    | cons r rs ih => rw [List.map_cons, countVia_cons, ih]; rfl
+  have hs : ∀ i ∈ order, ∃ r, (reqs.map (⟨·, .start⟩ : Req → Thread))[i]? = some ⟨r, .start⟩ := by
+    intro i hi
+    have := hlt i hi
+    exact ⟨reqs[i], by simp [List.getElem?_map, List.getElem?_eq_getElem this]⟩
+  have := (serial_aux k hk0 order st _ hnd hs).1
+  rw [h0 reqs] at this
+  exact this
+
+-- three requests through one key, run serially in the order 2, 0, 1: one account
+example : countVia 7 (threadResps (runSched exState [⟨exReq, .start⟩, ⟨exReq2, .start⟩, ⟨exReq, .start⟩]
+    (serialSched [2, 0, 1])).2) = 1 := by decide
+
+
+/-! ## 4. the key's policy limits every order of the account bound to it -/
+
+theorem allAllowed_pass {e : Policy.Engine} {idents : List Policy.Names} (h : allAllowed e idents = .pass) :
+    ∀ n ∈ idents, Policy.validateNames e n = .allow := by
+  induction idents with
+  | nil => intro n hn; cases hn
+  | cons x xs ih =>
+    intro n hn
+    simp only [allAllowed] at h
+    cases hx : Policy.validateNames e x with
+    | allow =>
+      rw [hx] at h
+      cases hn with
+      | head => exact hx
+      | tail _ hn => exact ih h n hn
+    | deny r k => rw [hx] at h; cases h
+    | crash => rw [hx] at h; cases h
+
+/-- **policy_limits_orders.** Under a provisioner that requires external account binding, if a key of
+    that provisioner is bound to the account and a name policy that builds an engine is attached to
+    it, a new-order request gets past the account-level gate only if **every** identifier — as sent,
+    a wildcard as the literal wildcard name — is allowed by that engine (`Verif.Policy.validateNames`,
+    whose meaning is `Verif.Policy.validateNames_allow` and the `*_sound` theorems of C04). -/
+theorem policy_limits_orders {st : State} {prov acc : Nat} {pol : Nat → Option (Policy.Build Policy.Engine)}
+    {idents : List Policy.Names} {k : EKey} {e : Policy.Engine}
+    (hk : keyOfAccount st prov acc = some k) (he : pol k.id = some (.ok e))
+    (h : orderGate st true prov acc pol idents = .pass) :
+    ∀ n ∈ idents, Policy.validateNames e n = .allow := by
+  unfold orderGate at h
+  simp only [Bool.not_true, Bool.false_eq_true, if_false, hk, he] at h
+  exact allAllowed_pass h
+
+/-- the key found is one of this provisioner, bound to this very account -/
+theorem keyOfAccount_bound {st : State} {prov acc : Nat} {k : EKey} (hk : keyOfAccount st prov acc = some k) :
+    k ∈ st.keys ∧ k.prov = prov ∧ k.bound = true ∧ k.account = acc := by
+  unfold keyOfAccount at hk
+  have h1 := List.mem_of_find?_eq_some hk
+  have h2 := List.find?_some hk
+  simp at h2
+  exact ⟨h1, h2.1.1, h2.1.2, h2.2⟩
+
+/-- not vacuous: after the witness account was created through key 7, an engine that permits only
+    `zap.internal` (no literal wildcards) lets `zap.internal` through and stops `*.zap.internal` -/
+def exEngine : Policy.Engine :=
+  { verifyCN := true, allowWild := false, pCN := [], xCN := [], pDNS := [Verif.s "zap.internal"], xDNS := [],
+    pIP := [], xIP := [], pEmail := [], xEmail := [], pURI := [], xURI := [], pPrin := [], xPrin := [] }
+
+def exNames (raw idna : String) : Policy.Names := { dns := [⟨Verif.s raw, some (Verif.s idna)⟩] }
+def exPol : Nat → Option (Policy.Build Policy.Engine) := fun k => if k = 7 then some (.ok exEngine) else none
+
+example : keyOfAccount (handle exState exReq).1 1 1 = some { id := 7, prov := 1, hasSecret := false, bound := true, account := 1 } := by
+  decide
+example : orderGate (handle exState exReq).1 true 1 1 exPol [exNames "zap.internal" "zap.internal"] = .pass := by decide
+example : orderGate (handle exState exReq).1 true 1 1 exPol [exNames "zap.internal" "zap.internal", exNames "*.zap.internal" ".zap.internal"]
+    = .rejected := by decide
+-- another account (none bound to a key) is not limited by key 7's policy
+example : orderGate (handle exState exReq).1 true 1 2 exPol [exNames "*.zap.internal" ".zap.internal"] = .pass := by decide
 
 end Verif.EAB
